@@ -182,7 +182,9 @@ pub fn run(ctx: &Ctx) -> PropReport {
     );
     rep.push(exhaustive(ctx, ctx.tier.pick(5, 6)));
     rep.push(run_sharded(ctx, "random", ctx.tier.pick(100_000, 1_000_000), program, judge, |s| json!({"state": s.to_json(), "program": s.exec.iter().map(|x| x.render()).collect::<Vec<_>>().join(" ")})));
-    rep.push(crate::props::incontext::run(ctx, ctx.tier.pick(40_000, 600_000)));
+    for r in crate::props::incontext::run_all(ctx, ctx.tier.pick(40_000, 600_000)) {
+        rep.push(r);
+    }
     rep
 }
 
